@@ -5,6 +5,7 @@ from __future__ import annotations
 from .. import terms as tm
 from ..model import AnalysisError
 from .common import ob, need, call_name, is_lit, role_of, roles
+from . import common
 from .. import symeval
 from . import c06, c12
 
@@ -269,6 +270,8 @@ def rule_nmifloor(ctx):
 
 
 RULES = [
+    ("C16.KWVIEW", 5, common.shared("c03", "rule_kwview", "C16.KWVIEW", keep=lambda o: o.construct.startswith("segment."))),
+    ("C16.NCEGUARD", 2, common.shared("c12", "rule_nceguard", "C16.NCEGUARD")),
     ("C16.NMIFLOOR", 1, rule_nmifloor),
     ("C16.NCEFORM", 5, rule_nceform),
     ("C16.FRAMEGRID", 4, rule_framegrid),
